@@ -31,6 +31,10 @@ def scalar_values(quick):
     for m in MANTS:
         for e in exps:
             out.append(("prefixed", m, e))
+    # the other documented spellings of a prefixed number: `number * e(k)`, `number * <prefix symbol>`, `(number * p) * UNIT`
+    for m in MANTS:
+        for e in (-9, 0, 3):
+            out += [("prefixed_e", m, e), ("prefixed_sym", m, e), ("prefixed_chain", m, e)]
     out += [("int", i) for i in INTS]
     out += [("float", repr(f)) for f in FLOATS]
     out += [("decimal", m) for m in MANTS]
@@ -47,6 +51,14 @@ def mk_value(spec):
     k = spec[0]
     if k == "prefixed":
         return h.Prefixed(number=Decimal(spec[1]), prefix=Prefix.from_exp(spec[2]))
+    if k == "prefixed_e":
+        from hdl21.prefix import e as hexp
+
+        return Decimal(spec[1]) * hexp(spec[2])
+    if k == "prefixed_sym":
+        return Decimal(spec[1]) * Prefix.from_exp(spec[2])
+    if k == "prefixed_chain":
+        return (Decimal(spec[1]) * Prefix.from_exp(spec[2])) * Prefix.UNIT
     if k == "int":
         return spec[1]
     if k == "float":
@@ -73,7 +85,7 @@ class Corner(enum.Enum):
 def expected(spec, scalar_field=True):
     """What the exported parameter must denote: ("num", {acceptable Fractions}, prefix-exp or None) | ("text", s) | ("absent",)."""
     k = spec[0]
-    if k == "prefixed":
+    if k in ("prefixed", "prefixed_e", "prefixed_sym", "prefixed_chain"):
         return ("num", {Fraction(spec[1]) * Fraction(10) ** spec[2]}, spec[2])
     if k == "int":
         return ("num", {Fraction(spec[1])}, None)
